@@ -56,7 +56,11 @@ type padAns struct {
 
 func strWorker(w *vf.Worker) {
 	trap()
-	S, syms := allStrings(strAlphabet, 3)
+	maxSyms := 3
+	if !w.Quick() {
+		maxSyms = 4
+	}
+	S, syms := allStrings(strAlphabet, maxSyms)
 	needles, _ := allStrings(strAlphabet, 2)
 	var needleHex, padHex []string
 	for _, t := range needles {
@@ -158,6 +162,41 @@ func strWorker(w *vf.Worker) {
 		}
 		// model-free laws on the same string: encoders invert, latin1 pair inverts
 		lawInverse(ck, size, s)
+	}
+	// digests and encoders around the hash block boundaries and on 1 kB / 1 MB blocks
+	blockIdx := uint64(len(S) + 1)
+	if w.Mine(blockIdx) {
+		w.Begin(blockIdx)
+		var breqs []any
+		var blocks []string
+		for _, n := range []int{55, 56, 57, 63, 64, 65, 111, 112, 119, 120, 127, 128, 129, 1000, 1024, 1 << 20} {
+			b := make([]byte, n)
+			for i := range b {
+				b[i] = byte(i*7 + n)
+			}
+			blocks = append(blocks, string(b), strings.Repeat("a", n))
+		}
+		for _, b := range blocks {
+			breqs = append(breqs, map[string]any{"k": "unary", "s": hx(b)})
+		}
+		bans, err := pyBatch(breqs)
+		if err != nil {
+			w.Broken("%v", err)
+			return
+		}
+		for bi, b := range blocks {
+			var un map[string]string
+			if !mustUnmarshal(w, bans[bi], &un) {
+				return
+			}
+			for _, f := range unaryFuncs {
+				switch f.name {
+				case "md5", "sha1", "sha256", "sha512", "base64_encode", "hex_encode":
+					got, pn := call(func() *mlrval.Mlrval { return f.fn(sval(b)) })
+					ck.cmp("block["+f.name+"]", 99, fmt.Sprintf("%s(<%d bytes, first %s>)", f.name, len(b), q(b[:1])), f.name, got, pn, un[f.name], map[string]any{"function": f.name, "length": len(b)})
+				}
+			}
+		}
 	}
 	if len(mine) > 0 {
 		s := S[mine[len(mine)-1]]
